@@ -65,6 +65,11 @@ def big_values(u):
             a = '[' + ''.join('%d,' % (k * 2654435761 % (1 << 64)) for k in range(20000)) + ']'
             b = '[' + ''.join('%d,' % (k * 7 % 251) for k in range(70000)) + ']'
             out.append((i, '{' + a + ',' + b + ',}', 'two-blocks-above-64KiB'))
+        elif r.startswith('Vec<' * 70 + 'u64'):
+            v = '[1,2,3,]'
+            for k in range(2, 71):
+                v = '[' + v + (',[],]' if k % 9 == 0 else ',]')
+            out.append((i, v, 'nested-70-levels'))
         elif r == 'Vec<u64>':
             out.append((i, '[' + ''.join('%d,' % (k * 2654435761 % (1 << 64) | 1) for k in range(300000)) + ']', 'stream-above-2MiB'))
     return out
@@ -243,6 +248,14 @@ def gen_cases(prop, u, seed, tier, probe=None):
             cs.add('zstvec %d' % nz, kind='zstvec', n=nz, family='zero-sized-items-huge-length')
         for kind_, n in (('u8', 1 << 24), ('u8', (1 << 24) - 1), ('u8', (1 << 24) + 1), ('u64', 1 << 21), ('str', 1 << 24), ('str', (1 << 25) + 3)):
             cs.add('bigfile %s n%d %s -' % (kind_, n, 'dfull' if prop == 'C01' else 'deps'), kind='bigfile', loader='dfull', prefix=None, family='payload-16MiB')
+        if prop == 'C01':
+            # the stored bytes come back through `load_full` from something that is not a regular file: a named pipe fed
+            # in fragments by another thread (its metadata length is zero)
+            for i, t in enumerate(u.types):
+                if i % (5 if quick else 2): continue
+                for v in values_for(t, rng, 1):
+                    for pat in ['fifo-p7', 'fifo-all']:
+                        cs.add('rchunk %d %s - %s' % (i, pat, v), kind='rchunk', ti=i, val=v, k=None, family='fifo-roundtrip')
         for i, t in enumerate(u.types):
             for v in values_for(t, rng, nvals):
                 case(i, 0, '-', v, 'roundtrip')
@@ -300,6 +313,14 @@ def gen_cases(prop, u, seed, tier, probe=None):
             case(i, 0, 'setw:0:8:%d' % MAGIC_REV, v, 'hdr-magicrev')
             for m in [0, 1, 2, 3, 255, 256, 257, 32767, 32768, 65535, rng.randrange(2, 65536)]:
                 case(i, 0, 'setw:10:2:%d' % m, v, 'hdr-minor')
+            # two fields perturbed at once: a lower (accepted) minor version does not waive the hash checks; the first
+            # failing check in the published order is the one reported
+            for k in sorted(rng.sample(range(13 * 8, 29 * 8), 6 if quick else 24)):
+                case(i, 0, 'setw:10:2:0+flip:%d' % k, v, 'hdr-minor0-and-hash-flip')
+            k = rng.randrange(13 * 8, 29 * 8)
+            case(i, 0, 'setw:10:2:2+flip:%d' % k, v, 'hdr-minor2-and-hash-flip')
+            case(i, 0, 'setw:10:2:0+setw:12:1:4', v, 'hdr-minor0-and-usize')
+            case(i, 0, 'setw:8:2:2+setw:10:2:7', v, 'hdr-major-and-minor')
             for m in [0, 2, 256, 65535]:
                 case(i, 0, 'setw:8:2:%d' % m, v, 'hdr-major')
             for m in [0, 4, 7, 9, 16, 255]:
@@ -352,8 +373,16 @@ def gen_cases(prop, u, seed, tier, probe=None):
         # block, one byte before the end
         for kind_, n in (('u8', 1 << 24), ('u64', 1 << 22), ('str', 1 << 24), ('u8', (1 << 24) + 1)) + (() if quick else (('u8', 1 << 20), ('u64', 1 << 21), ('u8', 3 << 24))):
             for pre in ('64', '100', 'e1', 'e100', 'e%d' % (1 << 23), 'e%d' % ((1 << 24) - 1), str((1 << 23) + 5)):
+                # (only *strict* prefixes: a cut beyond the payload of the smaller streams would leave the whole stream)
+                if int(pre.lstrip('e')) >= n * (8 if kind_ == 'u64' else 1): continue
                 for l in ('dfull', 'full', 'map:0', 'deps'):
                     cs.add('bigfile %s n%d %s %s' % (kind_, n, l, pre), kind='bigfile', loader=l.split(':')[0], prefix=pre, family='big-prefix-' + l.split(':')[0])
+        # long vectors of deep-copy items (rebuilt item by item): cut right after the length word, after one item, in the
+        # middle, one byte before the end
+        for kind_, n in (('optu64', 70000), ('strs', 66000)) + (() if quick else (('optu64', 1 << 20), ('strs', 200000))):
+            for pre in ('b8', 'b9', 'b24', 'b%d' % (n * 4), 'e1', 'e9', '-'):
+                for l in ('dfull', 'full', 'map:0', 'deps'):
+                    cs.add('bigfile %s n%d %s %s' % (kind_, n, l, pre), kind='bigfile', loader=l.split(':')[0], prefix=None if pre == '-' else pre, family='long-deep-vector-prefix-' + l.split(':')[0])
     elif prop == 'C12':
         plan = []
         for i, t in enumerate(u.types):
@@ -473,6 +502,8 @@ def gen_cases(prop, u, seed, tier, probe=None):
             j, _, other = streams[(idx + 1) % len(streams)]
             if j != i: variants.append(('foreign', other))
             variants.append(('garbage', bytes(rng.randrange(256) for _ in range(64)).hex()))
+            if idx % 4 == 0:
+                variants.append(('empty', 'EMPTY'))        # a file of length zero
             if idx % 5 == 0:
                 variants.append(('unreadable', 'DIR'))     # a path that opens and has a length but cannot be read (a directory)
             # (also a deep-copy structure that merely carries `repr(align(N))`, N > 64: the region loaders compare
@@ -573,6 +604,12 @@ def gen_cases(prop, u, seed, tier, probe=None):
                     if l in ('full', 'mem'): fl = [0]
                     for f in fl:
                         cs.add('load %d %s %d %s' % (i, l, f, v), kind='load', ti=i, val=v, loader=l, flags=f, family='load-' + l)
+        # `load_full` of a path that is not a regular file: a named pipe fed in fragments by another thread (metadata length zero)
+        for i, t in enumerate(u.types):
+            if i % (4 if quick else 1): continue
+            for v in values_for(t, rng, 1):
+                for pat in ['fifo-one', 'fifo-mix']:
+                    cs.add('rchunk %d %s - %s' % (i, pat, v), kind='rchunk', ti=i, val=v, k=None, family='load-full-named-pipe')
         # file lengths of every residue modulo 64: a string of every length 0..63 inside a deep structure
         si = [i for i, t in enumerate(u.types) if isinstance(t, Seq) and isinstance(t.t, Str)]
         if si:
@@ -647,6 +684,11 @@ def gen_cases(prop, u, seed, tier, probe=None):
             # WouldBlock, TimedOut
             for code in (2, 3, 4):
                 cs.add('wfail %d k=-,ff=%d %s' % (i, code, v), kind='wfail', ti=i, val=v, k=None, total=n, ff=True, family='flush-fail-kind%d' % code)
+            # the structure is not the first thing on the stream (`serialize_on_field_write` at position K > 0, header
+            # included): the flush still fails, the caller must still be told
+            for K in (1, 8, 24):
+                cs.add('wfail %d k=-,ff=1,at=%d %s' % (i, K, v), kind='wfail', ti=i, val=v, k=None, total=n, ff=True, at=K, family='flush-fail-at-offset')
+            cs.add('wfail %d k=-,ff=0,at=8 %s' % (i, v), kind='wfail', ti=i, val=v, k=None, total=n, ff=False, at=8, family='no-fail-at-offset')
             # the same sinks under serialize_with_schema: a failing flush, a failure after k bytes, no failure
             cs.add('wfail %d k=-,ff=1,sch=1 %s' % (i, v), kind='wfail', ti=i, val=v, k=None, total=n, ff=True, family='schema-flush-fail')
             cs.add('wfail %d k=-,ff=0,sch=1 %s' % (i, v), kind='wfail', ti=i, val=v, k=None, total=n, ff=False, family='schema-no-fail')
@@ -677,6 +719,9 @@ def gen_cases(prop, u, seed, tier, probe=None):
             if n > (300 if quick else 5000): continue
             for pat in ['one', 'onei', 'p3', 'p7i', 'mix', 'mixb', 'r%d' % rng.randrange(1000), 'r%di' % rng.randrange(1000), 'all', 'p3bi']:
                 cs.add('rchunk %d %s - %s' % (i, pat, v), kind='rchunk', ti=i, val=v, k=None, total=n, family='chunking')
+            # a container layer under the reader: frames of 1, 5, 16, 31 bytes, each decoded with the library itself inside `read`
+            for fr in (1, 5, 16, 31, 64):
+                cs.add('rchunk %d frames%d - %s' % (i, fr, v), kind='rchunk', ti=i, val=v, k=None, total=n, family='framed-reentrant')
             # load_full of a named pipe fed in fragments by another thread (every 7th type in the quick tier)
             if n <= 200 and (not quick or i % 7 == 0):
                 for pat in ['fifo-one', 'fifo-p7', 'fifo-mix', 'fifo-all']:
@@ -690,6 +735,10 @@ def gen_cases(prop, u, seed, tier, probe=None):
                 cs.add('rchunk %d %s %d %s' % (i, rng.choice(['allt', 'p3t', 'onet', 'mixt']), k, v), kind='rchunk', ti=i, val=v, k=k, total=n, family='transient-fail-at-k')
         for (i, v, what) in big_values(u):
             if what == 'stream-above-2MiB' and quick: continue
+            if what == 'nested-70-levels':
+                for pat in ['one', 'p3i', 'mix', 'frames7']:
+                    cs.add('rchunk %d %s - %s' % (i, pat, v), kind='rchunk', ti=i, val=v, k=None, total=0, family='deep-chunking')
+                continue
             n = {'item-above-1MiB': 2 * 8 * 131073 + 8, 'two-blocks-above-64KiB': 230000, 'stream-above-2MiB': 2400000}[what]
             for pat in ['all', 'p4093', 'mix']:
                 cs.add('rchunk %d %s - %s' % (i, pat, v), kind='rchunk', ti=i, val=v, k=None, total=n, family='big-chunking')
@@ -726,6 +775,14 @@ def gen_cases(prop, u, seed, tier, probe=None):
                 if any(x[:2] in ('ra', 'rx', 'wa') for x in combo):
                     ops = ';'.join(('w:' + rb(5),) + combo)
                     cs.add('cursor 16 ' + ops, kind='cursor', family='provided-len%d' % L, val=ops)
+        # `write_vectored` with no buffer at all and with one buffer, at, before and past the end
+        wv = ['wv', 'wv:' + rb(3), 'p:2', 'p:9', 'p:40', 'se:3', 'r:3', 'w:' + rb(2)]
+        for L in range(1, 4):
+            for combo in itertools.product(wv, repeat=L):
+                if any(x[:2] == 'wv' for x in combo):
+                    for first in (('w:' + rb(5),), ()):
+                        ops = ';'.join(first + combo)
+                        cs.add('cursor %s %s' % ('16' if first else '32', ops), kind='cursor', family='vectored-len%d' % L, val=ops)
         maxlen = 3 if quick else 4
         alpha = alphabet[:14] if not quick else alphabet[:12]
         for L in range(1, maxlen + 1):
@@ -741,7 +798,8 @@ def gen_cases(prop, u, seed, tier, probe=None):
             if c < 0.93: return 'p:%d' % rng.choice([0, 1, 16, 17, 64, 500, rng.randrange(0, 2000)])
             if c < 0.95: return 'ra'
             if c < 0.97: return 'rx:%d' % rng.choice([0, 1, 3, 16, 40, 300])
-            if c < 0.99: return 'wa:' + rb(rng.choice([0, 0, 1, 8, 33]))
+            if c < 0.985: return 'wa:' + rb(rng.choice([0, 0, 1, 8, 33]))
+            if c < 0.995: return rng.choice(['wv', 'wv', 'wv:' + rb(9)])
             return 'f'
         # writes of tens of kilobytes (at, before and past the end; after lengths that are and are not whole units)
         for first in ('w:' + rb(5), 'w:' + rb(16), 'w:' + rb(33), 'wz:70000:3', ''):
